@@ -9,7 +9,7 @@
      A scripted fetcher/database answers the requested pairs it has (all=false) or everything it has.
    observable: JSON object R (string of 0/1, or E), D (null or [[s,k,ts]]), F ([[idx,[[s,k,ts]]]]),
      S (null or [[s,k,key,exp,vu]]). *)
-From Verif Require Import Lib.Bytes Json.Ast Json.Parse Keys.Model Keys.Spec.
+From Verif Require Import Lib.Bytes Json.Ast Json.Parse Keys.Model Keys.Spec Keys.ServerKeys.
 Open Scope Z_scope.
 
 Definition gz (k : bytes) (j : json) : Z := match jget_int k j with Some z => z | None => 0 end.
@@ -245,9 +245,162 @@ Definition prop_verify_jsons (args : list bytes) : bytes :=
   | [] => bs "badargs"
   end.
 
+(* ================= CheckKeys and the two library fetchers =================
+   documents: args = [scenario; raw doc 0; raw doc 1; ...]; scenario member docs = array of objects
+   s (server_name), vu (valid_until_ts), verify = [[kid,keyhex]], old = [[kid,keyhex,expired_ts]] (the
+   fields of the ServerKeys value the library unmarshalled from the raw text); sig = [[doc,name,kid,keyhex]]:
+   VerifyJSON(name, kid, key, raw doc) succeeds.  Public keys travel as hex and are decoded here,
+   CheckKeys looks at their length. *)
+Definition hexv (c : N) : N :=
+  (if (48 <=? c) && (c <=? 57) then c - 48 else if (97 <=? c) && (c <=? 102) then c - 87 else 0)%N.
+Fixpoint unhex (s : bytes) : bytes :=
+  match s with a :: b :: r => (16 * hexv a + hexv b)%N :: unhex r | _ => [] end.
+
+Definition docT := (Z * bytes)%type.
+Definition doc_of (p : Z * (json * bytes)) : server_keys docT :=
+  match p with
+  | (i, (j, raw)) =>
+      {| sk_server := gs (bs "s") j; sk_valid_until := gz (bs "vu") j;
+         sk_verify := flat_map (fun e => match e with JArr [k; key] => [(jsb k, unhex (jsb key))] | _ => [] end)
+                               (ga (bs "verify") j);
+         sk_old := flat_map (fun e => match e with JArr [k; key; x] => [(jsb k, (unhex (jsb key), jz x))] | _ => [] end)
+                            (ga (bs "old") j);
+         sk_raw := (i, raw) |}
+  end.
+Definition docs_of (cfg : json) (raws : list bytes) : list (server_keys docT) :=
+  map doc_of (number_from 0 (combine (ga (bs "docs") cfg) raws)).
+
+Definition doc_sig_table (cfg : json) : list (Z * bytes * bytes * bytes) :=
+  flat_map (fun j => match j with JArr [i; n; k; key] => [(jz i, jsb n, jsb k, unhex (jsb key))] | _ => [] end)
+           (ga (bs "sig") cfg).
+Definition doc_vj (tbl : list (Z * bytes * bytes * bytes)) (name kid key : bytes) (m : docT) : bool :=
+  existsb (fun e => match e with (i, n, k, ky) =>
+             (i =? fst m) && bytes_eqb n name && bytes_eqb k kid && bytes_eqb ky key end) tbl.
+Definition doc_kids (name : bytes) (m : docT) : option (list bytes) := list_key_ids name (snd m).
+
+Definition b01 (b : bool) : bytes := if b then bs "1" else bs "0".
+Definition p_checks (c : key_checks) : bytes :=
+  bs "all=" ++ b01 (ck_all c) ++ bs ",name=" ++ b01 (ck_name c) ++ bs ",future=" ++ b01 (ck_future c)
+  ++ bs ",has=" ++ b01 (ck_has c)
+  ++ bs ",alled=" ++ (match ck_alled c with None => bs "null" | Some b => b01 b end)
+  ++ bs ";" ++ commas (map (fun e => kc_kid e ++ bs "/" ++ b01 (kc_valid e) ++ bs "/" ++ b01 (kc_match e)) (ck_entries c))
+  ++ bs ";keys=" ++ (match ck_keys c with None => bs "-"
+                     | Some l => commas (map (fun kv => fst kv ++ bs "=" ++ hex_of_bytes (snd kv)) l) end).
+
+(* [scenario {server, now (ns), docs:[doc], sig}; raw] *)
+Definition run_check_keys (args : list bytes) : bytes :=
+  match args with
+  | cfgb :: raws =>
+      match parse_json cfgb with
+      | None => bs "badconfig"
+      | Some cfg =>
+          match docs_of cfg raws with
+          | d :: _ => p_checks (check_keys docT (doc_vj (doc_sig_table cfg)) (gs (bs "server") cfg) (gz (bs "now") cfg) d)
+          | [] => bs "nodoc"
+          end
+      end
+  | _ => bs "badargs"
+  end.
+
+(* specification of CheckKeys, written from its documentation: every flag on its own *)
+Definition prop_check_keys (args : list bytes) : bytes :=
+  match rev args with
+  | obs :: rest =>
+      match rev rest with
+      | cfgb :: raws =>
+          match parse_json cfgb with
+          | None => bs "badconfig"
+          | Some cfg =>
+              match docs_of cfg raws with
+              | d :: _ =>
+                  let tbl := doc_sig_table cfg in
+                  let eds := filter (fun kv => bytes_eqb (algorithm_of (fst kv)) (bs "ed25519")) (sk_verify docT d) in
+                  let want :=
+                    bytes_eqb (gs (bs "server") cfg) (sk_server docT d)
+                    && (gz (bs "now") cfg <? signed_ms (sk_valid_until docT d) * 1000000)
+                    && negb (Nat.eqb (length eds) 0)
+                    && forallb (fun kv => Nat.eqb (length (snd kv)) 32
+                                          && doc_vj tbl (sk_server docT d) (fst kv) (snd kv) (sk_raw docT d)) eds in
+                  if is_prefix (bs "all=" ++ b01 want ++ bs ",") obs then bs "ok"
+                  else bs "FAIL want all=" ++ b01 want
+              | [] => bs "nodoc"
+              end
+          end
+      | [] => bs "badargs"
+      end
+  | [] => bs "badargs"
+  end.
+
+Definition idx_list (j : option json) : option (list Z) :=
+  match j with Some (JArr l) => Some (map jz l) | _ => None end.
+Definition pick_docs (docs : list (server_keys docT)) (ix : list Z) : list (server_keys docT) :=
+  flat_map (fun i => match nth_error docs (Z.to_nat i) with Some d => [d] | None => [] end) ix.
+Definition asked_of (cfg : json) : kmap Z :=
+  fold_left (fun m j => match j with JArr [s; k; t] => minsert (jsb s, jsb k) (jz t) m | _ => m end)
+            (ga (bs "asked") cfg) [].
+Definition p_hexkeys (m : kmap pkres) : bytes :=
+  p_keys (map (fun kv => (fst kv, {| pk_key := hex_of_bytes (pk_key (snd kv)); pk_expired := pk_expired (snd kv);
+                                     pk_valid_until := pk_valid_until (snd kv) |})) m).
+
+(* direct fetcher: scenario members local = [names], localkey (hex), asked, get = object server -> doc
+   index or null, lookup = object server -> [doc indices] or null, docs, sig *)
+Definition run_direct_fetch (args : list bytes) : bytes :=
+  match args with
+  | cfgb :: raws =>
+      match parse_json cfgb with
+      | None => bs "badconfig"
+      | Some cfg =>
+          let docs := docs_of cfg raws in
+          let vjf := doc_vj (doc_sig_table cfg) in
+          let getj := match jget (bs "get") cfg with Some g => g | None => JNull end in
+          let lookj := match jget (bs "lookup") cfg with Some g => g | None => JNull end in
+          let get := fun server => match jget server getj with
+                                   | Some (JNum r) => nth_error docs (Z.to_nat (jz (JNum r)))
+                                   | _ => None end in
+          let lookup := fun server (_ : kmap Z) => option_map (pick_docs docs) (idx_list (jget server lookj)) in
+          let locals := map jsb (ga (bs "local") cfg) in
+          let is_local := fun s => mem_bytes s locals in
+          let asked := asked_of cfg in
+          let remote := distinct_servers (map (fun kv => fst (fst kv)) (filter (fun kv => negb (is_local (fst (fst kv)))) asked)) [] in
+          let gets := fold_left (fun acc s => insert_sorted s acc) remote [] in
+          let looks := fold_left (fun acc s => match fetch_keys_for_server docT vjf get s with
+                                               | None => insert_sorted s acc | Some _ => acc end) remote [] in
+          bs "G=" ++ commas gets ++ bs ";L=" ++ commas looks ++ bs ";"
+          ++ p_hexkeys (direct_fetch docT vjf get lookup is_local (unhex (gs (bs "localkey") cfg))
+                                     (as_timestamp (gz (bs "now") cfg)) asked)
+      end
+  | _ => bs "badargs"
+  end.
+
+(* perspective fetcher: scenario members pname, pkeys = [[kid,keyhex]], asked, lookup = [doc indices] or
+   null, docs, sig *)
+Definition run_perspective_fetch (args : list bytes) : bytes :=
+  match args with
+  | cfgb :: raws =>
+      match parse_json cfgb with
+      | None => bs "badconfig"
+      | Some cfg =>
+          let docs := docs_of cfg raws in
+          let vjf := doc_vj (doc_sig_table cfg) in
+          let pkeys := flat_map (fun e => match e with JArr [k; key] => [(jsb k, unhex (jsb key))] | _ => [] end)
+                                (ga (bs "pkeys") cfg) in
+          let lookup := fun (_ : bytes) (_ : kmap Z) => option_map (pick_docs docs) (idx_list (jget (bs "lookup") cfg)) in
+          bs "A=" ++ p_asked (asked_of cfg) ++ bs ";"
+          ++ match perspective_fetch docT doc_kids vjf lookup (gs (bs "pname") cfg) pkeys (asked_of cfg) with
+             | None => bs "E"
+             | Some m => p_hexkeys m
+             end
+      end
+  | _ => bs "badargs"
+  end.
+
 Definition ops_C12 : list (bytes * (list bytes -> bytes)) :=
   [ (bs "C12.verify_jsons", run_verify_jsons);
     (bs "C12.was_valid_at", run_was_valid_at);
     (bs "C12.list_key_ids", run_list_key_ids);
+    (bs "C12.check_keys", run_check_keys);
+    (bs "C12.direct_fetch", run_direct_fetch);
+    (bs "C12.perspective_fetch", run_perspective_fetch);
+    (bs "C12.prop.check_keys", prop_check_keys);
     (bs "C12.prop.was_valid_at", prop_was_valid_at);
     (bs "C12.prop.verify_jsons", prop_verify_jsons) ].
